@@ -300,4 +300,23 @@ func init() {
 		}
 		return p
 	}
+
+	planTable["C31"] = lsmPlan("Merge operator with string concatenation (order- and loss-revealing) on the real DB: Add, the operator's periodic merge compaction as an explicit transition, flushes, every picker compaction, close/re-open with a new operator, optionally writes to a neighbouring key; after every transition MergeOperator.Get must equal the concatenation of all added values in Add order, and ErrKeyNotFound before the first Add.",
+		stateRule,
+		[]Stage{bfs("merge", 9, 70, prm("l0_tables", 1, "keys", 1))},
+		[]Stage{bfs("merge", 8, 900, prm("l0_tables", 1, "keys", 1)), bfs("merge", 7, 600, prm("l0_tables", 2, "keys", 1, "other", true, "nvk", 2))})
+
+	planTable["C32"] = func(q bool) *Plan {
+		p := &Plan{Level: "model_checking", Engine: "E-enum + E-sched",
+			Text:      "Trie level: every pattern = prefix of length <= 3 over {a,b,0xff} x every ignore mask over 3 positions (written as lists and as ranges) against every key of length <= 4 over the same alphabet: Trie.Get equals a reference matcher; pairs/triples of patterns with deletion. DB level: a subscriber (patterns: one continuing with 0xFF, a plain prefix, one with an ignored position plus a second pattern, the empty prefix) is registered and durably blocked before two concurrent committers write matching and non-matching user keys; under every interleaving up to the bound it must receive exactly one KV (key, value, version, user meta) per matching user-key write, in commit-timestamp order, and nothing for a user key matching no pattern.",
+			Note:      "KVs for internal !badger! keys are ignored (the property speaks about user keys).",
+			Technique: "bounded-exhaustive enumeration (trie) + stateless model checking (publisher under the controlled scheduler)",
+			Rule:      "patterns x keys; 4 subscriber cases x schedules up to the bound"}
+		if q {
+			p.Stages = []Stage{en("c32trie", 8, 40, nil), sched("c32pub", 2, 4, 40, prm("cases", 4))}
+		} else {
+			p.Stages = []Stage{en("c32trie", 16, 300, prm("stride", 1)), sched("c32pub", 3, 4, 600, prm("cases", 4))}
+		}
+		return p
+	}
 }
